@@ -48,6 +48,20 @@ APPLICATION_CONTEXT_NAME = uid.UID('1.2.840.10008.3.1.1.1')
 IMPLEMENTATION_UID = uid.UID('1.2.826.0.1.3680043.8.498.1.1.155105445218102811803000')
 
 
+def _maximum_length_sub_item(user_data):
+    """Finds Maximum Length sub-item among User Information sub-items of the peer.
+
+    Sub-items may come in any order (PS3.8, Annex D does not fix one).
+
+    :param user_data: list of user information sub-items
+    :return: sub-item or ``None`` if there is none
+    """
+    for item in user_data:
+        if isinstance(item, userdataitems.MaximumLengthSubItem):
+            return item
+    return None
+
+
 def build_pres_context_def_list(context_def_list):
     """Builds a list of Presntation Context Items
 
@@ -198,7 +212,11 @@ class AssociationAcceptor(socketserver.StreamRequestHandler, Association):
         of the request sends association response based on
         acceptable_pr_contexts"""
         user_items = assoc_req.variable_items[-1]
-        max_pdu_sub_item = user_items.user_data[0]
+        max_pdu_sub_item = _maximum_length_sub_item(user_items.user_data)
+        if max_pdu_sub_item is None:
+            # requestor did not announce its limit: nothing restricts what is sent to it
+            max_pdu_sub_item = userdataitems.MaximumLengthSubItem(0)
+            user_items.user_data.insert(0, max_pdu_sub_item)
         # 0 means 'no limit': requestor's value restricts only if it's not 0
         peer_max_pdu_length = max_pdu_sub_item.maximum_length_received
         if peer_max_pdu_length and (not self.max_pdu_length or
@@ -393,14 +411,12 @@ class AssociationRequester(Association):
             return exceptions.AssociationError('Invalid repsonse')
 
         # Get maximum pdu length from answer
-        user_data = response.variable_items[-1].user_data
-        try:
-            max_pdu_length = user_data[0].maximum_length_received
+        max_pdu_sub_item = _maximum_length_sub_item(response.variable_items[-1].user_data)
+        if max_pdu_sub_item is not None:
+            max_pdu_length = max_pdu_sub_item.maximum_length_received
             if max_pdu_length and (not self.max_pdu_length or
                                    self.max_pdu_length > max_pdu_length):
                 self.max_pdu_length = max_pdu_length
-        except IndexError:
-            pass
 
         # Get accepted presentation contexts
         accepted = (ctx for ctx in response.variable_items[1:-1] if ctx.result_reason == 0)
